@@ -126,7 +126,7 @@ def bytes_strict(on):
     if not sys.flags.bytes_warning:
         return
     import warnings
-    warnings.filterwarnings("error" if on else "ignore", category=BytesWarning, module=r"code_data(\..*)?$")
+    warnings.filterwarnings("error" if on else "ignore", category=BytesWarning, module=r"(.*[/.])?code_data([./].*)?$")
 
 
 def mixes_str_and_bytes_in_a_set(code):
@@ -153,6 +153,11 @@ def mixes_str_and_bytes_in_a_set(code):
     return walk(code)
 
 
+def violation_pyflags():
+    return (["-" + "O" * sys.flags.optimize] if sys.flags.optimize else []) + (["-b"] if sys.flags.bytes_warning else []) + \
+        (["vendored-copy"] if LIBNAME != "code_data" else [])
+
+
 def violation(prop, monitor, clause, case, detail, mech=None):
     """Record a refuting observation. Never raises into the library."""
     key = (monitor, clause, mech)
@@ -162,7 +167,7 @@ def violation(prop, monitor, clause, case, detail, mech=None):
     emit({
         "t": "viol", "prop": prop, "monitor": monitor, "clause": clause,
         "interp": PYTAG, "case": case, "detail": short(detail, 1500), "mech": mech,
-        "pyflags": (["-" + "O" * sys.flags.optimize] if sys.flags.optimize else []) + (["-b"] if sys.flags.bytes_warning else []),
+        "pyflags": violation_pyflags(),
     })
 
 
@@ -196,6 +201,9 @@ def _monitor_error(label, where):
         emit({"t": "monitor_error", "monitor": label, "where": where, "trace": traceback.format_exc()[-1500:]})
 
 
+MONITORS_OFF = [False]    # stress.py: monitors keep per-call state that is not thread-safe; they are inert while threads run
+
+
 class Monitor(object):
     """Post-condition wrapper. The condition observes; it never alters the call."""
 
@@ -221,7 +229,7 @@ class Monitor(object):
             fn = raw
 
         def wrapper(*a, **k):
-            if not mon.enabled:
+            if not mon.enabled or MONITORS_OFF[0]:
                 return fn(*a, **k)
             count("calls:" + mon.label)
             snap = None
@@ -480,16 +488,85 @@ def code_brief(code):
 # ---------------------------------------------------------------------------
 # the repository under test
 
+PROP = None   # set by worker.py
+LIBNAME = "code_data"     # "vnd_pkg.code_data" in a vendored-copy worker
+
+
+def use_vendored_copy(vdir=None):
+    """Import the library under test as `vnd_pkg.code_data` (a vendored copy: a package directory holding a link to the
+    repository's package) while a top-level `code_data` stays importable as well - the situation of an application that
+    bundles the library next to an installed one.  The library's modules must only ever reach each other relatively."""
+    global LIBNAME
+    if vdir is None:
+        import tempfile
+        vdir = tempfile.mkdtemp(prefix="vendored-")
+        os.mkdir(os.path.join(vdir, "vnd_pkg"))
+        open(os.path.join(vdir, "vnd_pkg", "__init__.py"), "w").close()
+        os.symlink(os.path.join(os.path.abspath(os.environ.get("VERIF_REPO", "/repo")), "code_data"), os.path.join(vdir, "vnd_pkg", "code_data"))
+        os.environ["VERIF_VENDORED"] = vdir
+        os.environ["PYTHONPATH"] = vdir + os.pathsep + os.environ.get("PYTHONPATH", "")
+    if vdir not in sys.path:
+        sys.path.insert(0, vdir)
+    LIBNAME = "vnd_pkg.code_data"
+    return vdir
+
+
+if os.environ.get("VERIF_VENDORED"):
+    use_vendored_copy(os.environ["VERIF_VENDORED"])
+
+
+def lib(*names):
+    """The package under test, or attributes / submodules of it (instead of `from code_data import ...`)."""
+    import importlib
+    pkg = importlib.import_module(LIBNAME)
+    if not names:
+        return pkg
+    out = []
+    for n in names:
+        if n.startswith("_") and not hasattr(pkg, n):
+            out.append(importlib.import_module(LIBNAME + "." + n))
+        elif n.startswith("_") and type(getattr(pkg, n)).__name__ == "module":
+            out.append(getattr(pkg, n))
+        else:
+            out.append(getattr(pkg, n))
+    return out[0] if len(out) == 1 else out
+
+
 def import_repo(json_only=False):
-    import code_data  # noqa
-    if not json_only:
-        from code_data import _code_data, _blocks, _line_mapping, _constants, _flags_data  # noqa
-        from code_data import _args, _normalize, _json_data  # noqa
+    try:
+        code_data = lib()
+        if not json_only:
+            lib("_code_data", "_blocks", "_line_mapping", "_constants", "_flags_data", "_args", "_normalize", "_json_data")
+    except BaseException as e:
+        # no API call can succeed for any input in this process: every property that needs a result is refuted here
+        violation(PROP or "?", "import", "the library cannot be imported in this interpreter (mode %s)" % (
+            " ".join(violation_pyflags()) or "default"), {"k": "import", "id": "import code_data"},
+            "%s: %s" % (type(e).__name__, short(e, 400)))
+        raise
     here = os.path.realpath(os.path.dirname(code_data.__file__))
     want = os.path.realpath(os.path.join(os.environ.get("VERIF_REPO", "/repo"), "code_data"))
     if here != want:
         raise RuntimeError("code_data imported from %s, expected %s" % (here, want))
+    if LIBNAME != "code_data":
+        # the situation needs both copies to be importable; the top-level one must not be the one under test
+        import importlib
+        other = importlib.import_module("code_data")
+        if other is code_data:
+            raise RuntimeError("vendored copy and top-level copy are the same module object")
     return code_data
+
+
+def json_transits(doc, text=None, big=200000):
+    """The same JSON document after a trip through other serializers: members sorted (json.dumps(sort_keys=True), jq -S,
+    Go, canonical JSON), members in reverse order, pretty-printed.  A JSON object is unordered and
+    insignificant white space is free, so each of these is the same document."""
+    if text is None:
+        text = json.dumps(doc, allow_nan=False)
+    yield "sorted members", json.loads(json.dumps(doc, sort_keys=True, allow_nan=False))
+    if len(text) > big:
+        return
+    yield "reversed members", json.loads(text, object_pairs_hook=lambda pairs: dict(reversed(pairs)))
+    yield "pretty-printed", json.loads(json.dumps(doc, indent=1, separators=(" ,", " : "), allow_nan=False))
 
 
 def canon_json(doc):
